@@ -28,6 +28,7 @@ import (
 	"github.com/fsnotify/fsnotify"
 
 	"github.com/sourcegraph/zoekt/index"
+	"github.com/sourcegraph/zoekt/internal/verifhook"
 )
 
 type shardLoader interface {
@@ -184,6 +185,7 @@ func (s *DirectoryWatcher) scan() error {
 	}
 
 	s.loader.drop(toDrop...)
+	verifhook.Point("scan.between")
 	s.loader.load(toLoad...)
 
 	return nil
